@@ -75,6 +75,7 @@ func ruleC20(c *Check) {
 	c.nilMapWrites(fs)
 	c.fractionValidators("C20.3")
 	c.panickingConversions(fs)
+	c.panicCallees(fs, r)
 	c.moduleWiring("C20.4", map[string]bool{"endblock": true})
 	// the callbacks of an owning module are called without a nil test: contexts are created only for modules that registered both
 	c.constructorRules("C20.3", map[string]bool{"callbacks": true})
@@ -92,9 +93,11 @@ func ruleC20(c *Check) {
 	}
 	c.priceNonEmpty("C20.3", fs)
 	c.coinsSubSites(fs)
+	// ... which holds because every earning is added to the provider's record and to its owner's total alike
+	c.earnRules("C20")
 	// the pricing indexed while a request is built exists: requests are built only for the providers the filter admitted
 	// (providers with a stored binding, whose pricing is stored with it), never for the consumer's raw list
-	c.newBatchRules("C20.3", map[string]bool{"list-vs-amount": true})
+	c.newBatchRules("C20.3", map[string]bool{"list-vs-amount": true, "issue-after-pause": true, "obligation-without-credit": true})
 	// the respond handler panics if the refund of a request fee fails: fees are valid coins only because the price routine clamps to one unit
 	c.priceSkeleton("C20.3")
 	// justification of the respond function's panics
@@ -1207,4 +1210,92 @@ func (c *Check) panickingConversions(fs []*Func) {
 		}
 	}
 	c.setInfo("panicking_conversions", n)
+}
+
+// panicCallees (C20.3): where a caller turns a callee's error into a panic (the respond function does so for the slash and
+// for the refund), the callee may fail only on what the custody rules exclude — a record that is missing, a bank transfer
+// that is refused. A rejecting exit that tests nothing but the callee's own arguments (an "invalid amount" guard in front
+// of the refund) fails for inputs the caller passes as they come: an empty fee in super mode. Such an exit is a panic route.
+func (c *Check) panicCallees(fs []*Func, r *reachInfo) {
+	n := 0
+	seen := map[*Func]bool{}
+	var examine func(host, g *Func, pos token.Pos, depth int)
+	examine = func(host, g *Func, pos token.Pos, depth int) {
+		if g == nil || g.Body == nil || !g.isHandWritten() || seen[g] || depth > 2 {
+			return
+		}
+		seen[g] = true
+		n++
+		bad := ""
+		var badPos token.Pos
+		for _, pa := range c.P.PathsOf(g) {
+			if pa.Exit != ExitRevert {
+				continue
+			}
+			var last *Event
+			for _, ev := range pa.Events {
+				if ev.Kind == EvFact {
+					last = ev
+				}
+			}
+			if last == nil {
+				bad, badPos = "an unconditional rejection", pa.RetPos
+				continue
+			}
+			t := last.Fact.T
+			if last.Fact.Neg && t.Op == "ok" && len(t.A) == 1 {
+				examine(host, c.P.FuncNamed(stripConv(t.A[0]).Op), pa.RetPos, depth+1)
+				continue
+			}
+			argsOnly, mentionsParam := true, false
+			t.Walk(func(x *Term) bool {
+				switch {
+				case x.Op == "res" || x.Op == "ok" || x.Op == "out":
+					argsOnly = false
+				case x.Op == "" && strings.HasPrefix(x.At, "P"):
+					mentionsParam = true
+				case x.Op == "" && (x.At == "ctx" || strings.HasPrefix(x.At, "K.") || x.At == "store" || x.At == "BlockHeight"):
+					argsOnly = false
+				case x.Op != "" && c.P.FuncNamed(x.Op) != nil && c.P.FuncNamed(x.Op).pkgName() == "keeper":
+					argsOnly = false
+				}
+				return true
+			})
+			if argsOnly && mentionsParam {
+				bad = shortTerm(t)
+				if last.Fact.Neg {
+					bad = "¬" + bad
+				}
+				badPos = pa.RetPos
+			}
+		}
+		p := g.Body.Pos()
+		if bad != "" {
+			p = badPos
+		}
+		c.req(bad == "", "C20.3", unitConstruct(g, "error-becomes-panic-in:"+host.Name), p,
+			"a function whose error "+host.Name+" turns into a panic rejects on missing records or refused transfers only, not on a test of its own arguments"+condStr(bad != "", ": it rejects under "+bad))
+	}
+	for _, f := range fs {
+		if !r.fromHandler[f] && !r.fromEndBlock[f] {
+			continue // genesis import panics on invalid operator input by design (A-HOST)
+		}
+		for _, pa := range c.P.PathsOf(f) {
+			if pa.Exit != ExitPanic {
+				continue
+			}
+			var last *Event
+			for _, ev := range pa.Events {
+				if ev.Kind == EvFact {
+					last = ev
+				}
+			}
+			if last == nil || !last.Fact.Neg || last.Fact.T.Op != "ok" || len(last.Fact.T.A) != 1 {
+				continue
+			}
+			examine(f, c.P.FuncNamed(stripConv(last.Fact.T.A[0]).Op), pa.RetPos, 0)
+		}
+	}
+	c.Sites += n
+	c.req(n >= 1, "C20.3", "panic-callees", token.NoPos, fmt.Sprintf("%d functions whose error a caller turns into a panic", n))
 }
